@@ -196,6 +196,7 @@ func (r *report) finish() int {
 	unsupported := map[string]int{}
 	unwind := 0
 	rewrites, audits, byModel, folded := 0, 0, 0, 0
+	monChecks := 0
 	var auditFail []string
 	vacuous := []string{}
 	var samples []any
@@ -223,6 +224,7 @@ func (r *report) finish() int {
 		audits += st.Audits
 		byModel += st.ByModel
 		folded += st.Folded
+		monChecks += st.MonitorChecks
 		auditFail = append(auditFail, st.AuditFail...)
 		for k, n := range st.Aborted {
 			if strings.HasPrefix(k, "unwind") {
@@ -327,7 +329,8 @@ func (r *report) finish() int {
 		"transitions":                   transitions,
 		"traces_validated_against_impl": r.selfMatch + r.replays,
 		"samples":                       samples,
-		"evaluations":                   evals + folded,
+		"evaluations":                   evals + folded + monChecks,
+		"monitored_stores_checked":      monChecks,
 		"assertions_discharged_by_solver": evals,
 		"assertions_folded_by_path_equalities": folded,
 		"rewriting": map[string]any{"infeasible_by_rewriting": rewrites, "audited_with_cvc5": audits, "audit_mismatches": len(auditFail), "feasible_by_verified_model": byModel, "audit_every": r.cfg.AuditEvery},
